@@ -165,6 +165,6 @@ Definition C03_trans_statement : Prop := forall rx a b c,
 (* open finding trans-negative-collection-size: the "a size that admits only the empty collection makes the
    element types irrelevant" shortcut tests max == 0, and a sub-range of [-1,0] can have max < 0:
    Array[Integer[0,9],-1,5] >= Array[String,-1,0] >= Array[String,-1,-1], not Array[Integer[0,9],-1,5] >= Array[String,-1,-1] *)
-Lemma C03_trans_refuted_by_negative_size : ~ C03_trans_statement.
+Theorem C03_trans_refuted_by_negative_size : ~ C03_trans_statement.
 Proof. exact (asg_trans_unguarded_refuted true). Qed.
 Print Assumptions C03_trans_refuted_by_negative_size.
